@@ -11,6 +11,7 @@ use vmodel::val::{shape, Val};
 
 pub mod basic;
 pub mod bigfile;
+pub mod contexts;
 pub mod cross;
 pub mod cursor;
 pub mod derive;
